@@ -1,0 +1,49 @@
+//! Verification hooks. Only compiled with the (off by default) cargo feature `verif`.
+//! Nothing in here changes the behaviour of the library: `yield_point` is a no-op unless a
+//! hook was installed by a test harness, `note` only counts events in a thread-local table.
+
+use std::cell::RefCell;
+use std::sync::OnceLock;
+
+static YIELD_HOOK: OnceLock<Box<dyn Fn(&'static str) + Send + Sync>> = OnceLock::new();
+
+/// Install a process-global hook that is called at every yield point. Can be set only once.
+pub fn set_yield_hook(hook: Box<dyn Fn(&'static str) + Send + Sync>) -> bool {
+    YIELD_HOOK.set(hook).is_ok()
+}
+
+/// Called (before any lock is taken) where shared interior-mutable state is read or written.
+#[inline]
+pub fn yield_point(site: &'static str) {
+    if let Some(hook) = YIELD_HOOK.get() {
+        hook(site)
+    }
+}
+
+thread_local! {
+    static NOTES: RefCell<Vec<(&'static str, usize)>> = RefCell::new(Vec::new());
+}
+
+/// Record an event that is otherwise only visible on standard error output
+pub fn note(kind: &'static str) {
+    NOTES.with(|notes| {
+        let mut notes = notes.borrow_mut();
+        if let Some(entry) = notes.iter_mut().find(|(k, _)| *k == kind) {
+            entry.1 += 1;
+        } else {
+            notes.push((kind, 1));
+        }
+    })
+}
+
+/// Number of events of this kind recorded by the current thread
+pub fn note_count(kind: &str) -> usize {
+    NOTES.with(|notes| {
+        notes
+            .borrow()
+            .iter()
+            .find(|(k, _)| *k == kind)
+            .map(|(_, n)| *n)
+            .unwrap_or(0)
+    })
+}
